@@ -255,7 +255,12 @@ Definition run_sg (samples : list ((float * float) * res float)) (cs cg : list (
   match sg_new (N:=FN) (lookup2 samples) s_lo s_hi s_bins g_lo g_hi g_bins with
   | Ok m =>
       "x=" ++ show_list show_float (x2 m) ++ " y=" ++ show_list show_float (y2 m) ++ " "
-      ++ join ";" (map (fun q => show_rf (sg_predict (N:=FN) (lookup1 cs) (lookup1 cg) m (fst q) (snd q))) qs)
+      (* the k-th query is converted with the k-th entries of cs / cg (the same raw number may come in different
+         units within one sequence of calls); predict is stateless: the k-th answer is the answer of that query alone *)
+      ++ join ";" (map (fun t : (float * float) * ((float * float) * (float * float)) =>
+                          let q := fst t in
+                          show_rf (sg_predict (N:=FN) (lookup1 [fst (snd t)]) (lookup1 [snd (snd t)]) m (fst q) (snd q)))
+                       (combine qs (combine cs cg)))
   | e => "new=" ++ show_err e
   end.
 Definition line_sgm id samples cs cg s_lo s_hi s_bins g_lo g_hi g_bins qs :=
